@@ -25,25 +25,34 @@ THEOREMS = [_NS + t for t in [
     "get_properties_sorted_fields", "child_nodes_sorted_perm", "to_properties_dict_eq_spec",
     "with_field_mem", "children_complete",
     "with_field_truthiness_irrelevant", "child_uids_truthiness_irrelevant",
-    "call_runs_own_function", "without_repointing_fails", "F12_pre_fix_fails", "F17_pre_fix_fails",
+    "call_runs_own_function", "without_repointing_fails", "marker_sharing_fails", "F12_pre_fix_fails",
+    "F17_pre_fix_fails", "foldl_resolved", "resolve_replay",
     "strLt_irrefl", "strLt_asymm", "strLt_total", "strLt_negtrans", "sortByName_perm", "sortByName_pairwise",
 ]] + ["PyOak.C12X." + t for t in [
     "sortByName_stable", "stableSort_unique", "edgesSorted_eq_stableSort", "edgesSorted_spec", "edgesSorted_unique",
     "get_child_nodes_with_field_sorted", "get_child_nodes_sorted", "iter_child_fields_sorted"]]
-RULE = ("seeded generated class hierarchies (source text exec'ed in a fresh module; 1-3 levels, 0-6 fields per level; "
-        "10 property shapes, 9 single-child shapes, 7 tuple shapes; overrides that keep or change the kind; defaults, "
-        "init=False, compare=False, both, kw_only; re-declared origin; plain and postponed annotations) x every schedule "
-        "of first use (all permutations of the classes after defining all; define/use interleaved; static accessor "
-        "first vs instance accessor first) each on a fresh copy of the hierarchy x all 2^5 x 2 flag vectors of "
-        "get_properties and 2^5 of get_property_fields x instances with empty tuples, absent optionals, falsy children "
-        "(__len__ -> 0, __bool__ -> False), an object twice in a tuple; a case is non-trivial when the class has >= 2 "
-        "user fields; distinct by request line")
+RULE = ("seeded generated families of node classes (source text exec'ed in a fresh module): chains of 1-4 classes with 0-6 "
+        "fields per class and marker subclasses; MULTIPLE INHERITANCE: diamonds over ASTNode or over a common parent, "
+        "`class C(A, B)` / `class C(A, B, E)` with and without own fields, marker / further subclasses of C, mix-ins "
+        "without fields in any base position; 10 property shapes, 9 single-child shapes, 7 tuple shapes; overrides that "
+        "keep or change the kind; defaults, init=False, compare=False, both, kw_only; re-declared origin; plain and "
+        "postponed annotations) x schedules of first use (all classes defined then used in every / sampled permutation; "
+        "each class defined just before its first use, in index order and in another order of use; random interleavings "
+        "with repeated uses; static accessor first vs instance accessor first) each on a fresh copy of the family x all "
+        "2^5 x 2 flag vectors of get_properties and 2^5 of get_property_fields x instances with empty tuples, absent "
+        "optionals, falsy children (__len__ -> 0, __bool__ -> False), an object twice in a tuple; a case is non-trivial "
+        "when the class has >= 2 user fields; distinct by request line")
 TRUSTED = [
-    "dataclasses.fields() of a single-inheritance chain is modelled by `resolve` (dict keyed by name) and compared with the real fields() on every generated class",
+    "dataclasses.fields() of a class is modelled by `resolve` over the flat replay of the declarations met while expanding the reversed MRO recursively (Props/C12MI.lean `resolve_replay`: replaying = writing the bases' resolved field dicts, which is what dataclasses does); the C3 linearisation is computed by the harness from the generated data; the result is compared with the real fields() on every generated class",
     "the classification of an annotation as property / single child / tuple of children is data here (subject of C11); the harness's kind of every field is compared with pyoak's classification on every generated class",
     "CPython's sorted(key=...) is modelled by a stable insertion sort on code points",
+    "the value stored in an attribute is read with plain getattr when the instance is described to the model",
 ]
-ASSUMPTIONS = ["single-inheritance chains below ASTNode (no mix-ins)", "instances are well typed (no runtime type check is involved)"]
+ASSUMPTIONS = [
+    "node classes below ASTNode with single or multiple inheritance; mix-ins declare no dataclass fields",
+    "don't-care: diamonds in which dataclasses' field dict (reversed MRO, bases' resolved dicts) and the MRO attribute/annotation lookup pick different declarations of one name (P.x, A(P), B(P) overriding x, C(A, B)) are not generated",
+    "instances are well typed (no runtime type check is involved)",
+]
 BUDGET = {"quick": 200, "thorough": 1800}
 
 FLAG_GRID = list(itertools.product([False, True], repeat=5))   # skip_id skip_origin skip_content_id skip_non_compare skip_non_init
@@ -76,7 +85,7 @@ class Use:
         self.h, self.k, self.rng, self.toks, self.vt, self.tag = h, k, rng, toks, vt, tag
         self.cls = h.classes[k]
         self.cls_sx = h.sexp_class(k)
-        self.nfields = sum(1 for _ in Z.resolved(h.levels[: k + 1]))
+        self.nfields = len(h.user_fields(k))
         self.nontriv = self.nfields >= 2
 
     # ---- real side helpers
@@ -99,7 +108,7 @@ class Use:
 
     def inst_sexp(self, inst, vals):
         items = [["id", [A("p"), self.vt.tok(inst.id)]], ["content_id", [A("p"), self.vt.tok(inst.content_id)]]]
-        for f in Z.resolved(self.h.levels[: self.k + 1]):
+        for f in self.h.user_fields(self.k):
             if f.name == "origin":
                 continue
             v = vals[f.name]
@@ -237,18 +246,37 @@ def _short(v) -> str:
     return repr(v)
 
 
+def _jit(order, modes):
+    """define every class right before it is first needed (classes are defined in index order, which is
+    a topological order of the family), use the classes in `order`"""
+    ops, defined = [], 0
+    for k, m in zip(order, modes):
+        while defined <= k:
+            ops.append(("def", defined))
+            defined += 1
+        ops.append(("use", k, m))
+    return ops
+
+
 def schedules(rng: random.Random, n: int, tier: str):
     """schedules of first use: lists of ('def', k) / ('use', k, mode); mode says which accessor family
     touches the class first"""
     out = []
+    modes = ["static", "instance", "mixed"]
     perms = list(itertools.permutations(range(n)))
-    if tier == "quick" and len(perms) > 3:
-        perms = [perms[0], perms[-1]] + rng.sample(perms[1:-1], 1)
+    cap = 3 if tier == "quick" else 8
+    if len(perms) > cap:
+        perms = [perms[0], perms[-1]] + rng.sample(perms[1:-1], cap - 2)
     for p in perms:
-        mode = rng.choice(["static", "instance", "mixed"])
+        mode = rng.choice(modes)
+        # all classes defined, then used in the order p
         out.append([("def", k) for k in range(n)] + [("use", k, mode) for k in p])
     # subclasses defined only after the first use of their bases
-    out.append([x for k in range(n) for x in (("def", k), ("use", k, rng.choice(["static", "instance", "mixed"])))])
+    out.append(_jit(list(range(n)), [rng.choice(modes) for _ in range(n)]))
+    if n >= 3:
+        # just-in-time definition along another order of use
+        p = list(rng.choice(perms[1:]))
+        out.append(_jit(p, [rng.choice(modes) for _ in range(n)]))
     if n >= 2:
         # random admissible interleaving, classes used more than once
         ops = []
@@ -258,7 +286,7 @@ def schedules(rng: random.Random, n: int, tier: str):
                 ops.append(("def", defined))
                 defined += 1
             else:
-                ops.append(("use", rng.randrange(defined), rng.choice(["static", "instance", "mixed"])))
+                ops.append(("use", rng.randrange(defined), rng.choice(modes)))
             if len(ops) > 3 * n + 2:
                 break
         for k in range(defined, n):
@@ -319,10 +347,18 @@ def _stat(k: str, n: int = 1) -> None:
 
 def _hier_stats(h: Z.Hier) -> None:
     _stat("hierarchies")
-    _stat(f"levels={len(h.levels)}")
-    seen: dict[str, Z.FSpec] = {}
-    for lvl in h.levels:
-        _stat(f"fields_per_level={len(lvl)}")
+    _stat(f"shape={h.shape}")
+    _stat(f"classes={len(h.levels)}")
+    for k, lvl in enumerate(h.levels):
+        _stat(f"own_fields={len(lvl)}")
+        nb = sum(1 for b in h.bases[k] if isinstance(b, int))
+        if nb >= 2:
+            _stat("class with >= 2 node bases" + ("" if lvl else ", no own fields"))
+        elif nb == 1 and not lvl:
+            _stat("marker subclass (one base, no own fields)")
+        if any(b in Z.MIXINS for b in h.bases[k]):
+            _stat("class with a mix-in base")
+        inherited = {f.name: f for a in reversed(h.node_ancestors(k)) for f in h.levels[a]}
         for f in lvl:
             _stat(f"kind={f.kind}")
             if not f.init and not f.compare:
@@ -333,23 +369,24 @@ def _hier_stats(h: Z.Hier) -> None:
                 _stat("compare=False")
             if f.kw_only:
                 _stat("kw_only")
-            if f.name in seen:
+            if f.name in inherited:
                 _stat("override")
-                if seen[f.name].kind != f.kind:
+                if inherited[f.name].kind != f.kind:
                     _stat("override changes kind")
             if f.name == "origin":
                 _stat("origin re-declared")
-            seen[f.name] = f
     if h.postponed:
         _stat("postponed annotations")
 
 
 def extra_coverage():
-    return {"generated": dict(sorted(STATS.items()))}
+    return {"generated": dict(sorted(STATS.items())),
+            "generator_trials": {"families": Z.RETRIES[0], "discarded by trial definition": Z.RETRIES[1],
+                                 "discarded: diamond where field dict and MRO lookup pick different declarations": Z.RETRIES[2]}}
 
 
 def cases(rng: random.Random, tier: str):
-    n_h = 40 if tier == "quick" else 1200
+    n_h = 40 if tier == "quick" else 900
     for j in range(n_h):
         proto_h = Z.gen_hier(rng)
         _hier_stats(proto_h)
